@@ -16,7 +16,7 @@ LEVEL = "exploration"
 RULE = (
     "Hypothesis-generated trees (depth <= 6) of mappings, lists and scalars with __type__ nodes at arbitrary positions; factories "
     "are dotted names into a scratch package written at run time (function, class, nested class attribute, staticmethod, a module "
-    "that is not yet imported, builtins) and record (name, args, kwargs) in a global call log; failing nodes: unknown module, "
+    "that is not yet imported, builtins, a functools.wraps wrapper whose reported signature is narrower than what it accepts, positional arguments handed over as a one-shot iterator) and record (name, args, kwargs) in a global call log; failing nodes: unknown module, "
     "unknown attribute, factory raising, non-string __type__, non-callable (module) and unbindable arguments. Oracle: an independent "
     "post-order evaluator (mapping items in order, list items last to first) gives the expected structure and call log, or the "
     "path of the first failing node and the call-log prefix; Translator and PipelineTranslator must both agree with it. "
@@ -26,7 +26,7 @@ RULE = (
 ASSUMPTIONS = [
     "locations over identifier-like keys are tokenised into keys and indices; for keys with other characters ('%', '.', blanks, brackets, "
     "non-ASCII) the string is compared literally with the '.key' / '[index]' notation; the key 'pipeline' is not generated",
-    "__args__ is always a list",
+    "__args__ is a list, or a nested __type__ node whose factory returns a one-shot iterator over its own arguments (generated only in that position)",
 ]
 
 PKG = "verifpkg_c19"
@@ -46,7 +46,9 @@ def record(name, args, kwargs):
     return Built(name, args, kwargs)
 '''
 _SRC_MOD_A = '''
-from verifpkg_c19 import record
+import functools
+
+from verifpkg_c19 import record, LOG
 
 def func(*args, **kwargs):
     return record("func", args, kwargs)
@@ -57,6 +59,18 @@ def strict(a, b=1, *, c=None):
 def boom(*args, **kwargs):
     record("boom", args, kwargs)
     raise ValueError("factory failed")
+
+def _narrow(a, b):
+    """the reported signature of `wrapped` (inspect follows __wrapped__), not what it accepts"""
+
+@functools.wraps(_narrow)
+def wrapped(*args, **kwargs):
+    return record("wrapped", args, kwargs)
+
+def once(*args, **kwargs):
+    """positional arguments for another factory, handed over as a one-shot iterator"""
+    LOG.append(("once", list(args), dict(kwargs)))
+    return iter(args)
 
 class Klass:
     def __new__(cls, *args, **kwargs):
@@ -84,7 +98,9 @@ GOOD = {
     f"{PKG}.mod_a.Klass.make": "make",
     f"{PKG}.sub.late.late_func": "late_func",
     f"{PKG}.mod_a.strict": "strict",
+    f"{PKG}.mod_a.wrapped": "wrapped",
 }
+ONCE = f"{PKG}.mod_a.once"
 BAD = [
     "verif_no_such_module.thing", f"{PKG}.no_such_mod.func", f"{PKG}.mod_a.Nope", f"{PKG}.mod_a.Klass.Nope.deeper",
     f"{PKG}.mod_a.boom", f"{PKG}.mod_a", 5, None, ["x"], "", f"{PKG}..mod_a",
@@ -119,7 +135,9 @@ def type_node(children):
         lambda t, args, kw: {"__type__": t, **({} if args is None else {"__args__": args}), **kw},
         st.one_of(st.sampled_from(sorted(GOOD)), st.sampled_from(sorted(GOOD)), st.sampled_from(sorted(GOOD)),
                   st.sampled_from(sorted(GOOD)), st.sampled_from(BAD), st.just("builtins.dict")),
-        st.one_of(st.none(), st.lists(children, max_size=3)),
+        # __args__: absent, a list, or a nested factory that hands the positional arguments over as a one-shot iterator
+        st.one_of(st.none(), st.lists(children, max_size=3), st.lists(children, max_size=3),
+                  st.lists(children, max_size=3).map(lambda items: {"__type__": ONCE, "__args__": items})),
         st.dictionaries(ident, children, max_size=3),
     )
 
@@ -143,6 +161,7 @@ class Evaluator:
         self.log = []
         self.pkg = pkg
         self.type_nodes = 0
+        self.once = 0
         self.nested = False
         mod_a = __import__(f"{PKG}.mod_a", fromlist=["x"])
         self.strict_sig = inspect.signature(mod_a.strict)
@@ -169,6 +188,10 @@ class Evaluator:
         mapping = dict(mapping)
         t = mapping.pop("__type__")
         args = mapping.pop("__args__", [])
+        if t == ONCE:
+            self.log.append(("once", list(args), dict(mapping)))
+            self.once += 1
+            return list(args)  # the real one is an iterator over the same items
         if isinstance(t, str) and t == "builtins.dict":
             try:
                 return dict(*args, **mapping)
@@ -255,7 +278,7 @@ def run_case(spec) -> Result:
         if res.violations:
             return res
     res.cls("depth:%d" % depth_of(spec), "types:%d" % min(ev.type_nodes, 6),
-            "outcome:" + ("ok" if failure is None else "fail:" + failure.why.split(" ")[0]))
+            "outcome:" + ("ok" if failure is None else "fail:" + failure.why.split(" ")[0]), "iterator-args:" + str(ev.once > 0))
     res.nontrivial = (ev.type_nodes >= 2 and ev.nested) or (failure is not None and len(failure.path) >= 2)
     return res
 
